@@ -107,6 +107,8 @@ func plans(id, tier string) (Plan, bool) {
 				{Pkg: pkgV2, Harness: "c07_corpus", Params: "t=0.8;families=scatter", Shards: 16},
 				{Pkg: pkgV2, Harness: "c07_corpus", Params: "t=0.8;families=exact,edit1,periodic,truncate,concat,scenario", Shards: 16},
 				{Pkg: pkgV2, Harness: "c07_corpus", Params: "t=0.8;families=edit2", Shards: 16},
+				{Pkg: pkgV2, Harness: "c07_corpus", Params: "t=0.8;families=partnoise", Shards: 16},
+				{Pkg: pkgV2, Harness: "c07_corpus", Params: "t=0.8;families=partnoise,exact,truncate;contexts=huge;ndocs=120", Shards: 16},
 			}}, true
 		}
 		return Plan{Level: "exploration", Jobs: []Job{
@@ -114,6 +116,7 @@ func plans(id, tier string) (Plan, bool) {
 			{Pkg: pkgV2, Harness: "c07_small", Params: fmt.Sprintf("vocab=accented;maxlen=%d", pick(6, 8)), Shards: pick(4, 16)},
 			{Pkg: pkgV2, Harness: "c07_corpus", Params: "t=0.8;families=exact,edit1,periodic,truncate,concat,scenario" + map[bool]string{false: ",scatter,edit2", true: ""}[th], Shards: 16},
 			{Pkg: pkgV2, Harness: "c07_corpus", Params: "t=0.8;docs=c07findings;families=scatter,periodic", Shards: 7},
+			{Pkg: pkgV2, Harness: "c07_corpus", Params: "t=0.8;families=partnoise,exact,truncate;contexts=huge;ndocs=" + fmt.Sprint(pick(24, 120)), Shards: 16},
 		}}, true
 	case "C08":
 		return Plan{Level: "fault_enumeration", Jobs: []Job{
@@ -225,6 +228,7 @@ func plans(id, tier string) (Plan, bool) {
 			{Pkg: pkgTok, Harness: "c17_tokens", Params: "alphabet=classes", Shards: pick(4, 16)},
 			{Pkg: pkgSS, Harness: "c17_candidates", Shards: 16},
 			{Pkg: pkgSS, Harness: "c17_candidates", Params: "alphabet=ab", Shards: 16},
+			{Pkg: pkgSS, Harness: "c17_large", Shards: 16},
 		}}, true
 	case "C18":
 		return Plan{Level: "exploration", Jobs: []Job{
